@@ -32,3 +32,36 @@ Inductive state_field := FWriteState | FReadState.
 Inductive state_variant := VNone | VResponse | VShutdown | VHead | VBody.
 (* (field, arms): an arm maps a variant to the name of the error returned, or None for `=> {}` *)
 Definition guard_table := (state_field * list (state_variant * option (list N)))%type.
+
+(* write_json_string (src/log/tag_value.rs): the arms of `match c`, in source order *)
+Inductive json_arm :=
+| JLit (c : N) (out : list N)              (* 'c' => f.write_str("out") *)
+| JBelowHex4 (bound : N) (pre : list N)    (* c if u32::from(c) < bound => write!(f, "pre{:04x}", u32::from(c)) *)
+| JSelf.                                   (* c => write!(f, "{c}") *)
+(* impl Display for TagValue: (variant name, what its arm does); a guarded arm precedes the plain arm *)
+Inductive tv_action :=
+| TVJsonString                                   (* write_json_string(f, x) *)
+| TVDisplay                                      (* Display::fmt(&x, f) *)
+| TVJsonStringIfEndsWith (sfx : list (list N))   (* if x.ends_with(a) || x.ends_with(b) => write_json_string(f, x) *)
+| TVLit (t : list N).                            (* write!(f, "t") *)
+Definition tv_arm := (list N * tv_action)%type.
+
+(* a format string with inline / named arguments: literal text, {name}, {name:0w} *)
+Inductive fmt_seg := FLit (t : list N) | FArg (name : list N) (width : N).
+
+(* the body of the log file writer's loop (src/log/log_file_writer.rs), statement by statement *)
+Inductive wexpr :=
+| WFileLen | WBufLen | WMaxWriteBytes | WMaxKeepBytes | WMaxWriteAge
+| WFileAgeNow                      (* file.age(now): now - created, zero when negative *)
+| WAdd (a b : wexpr)               (* a + b  (u64: overflow panics in debug builds, wraps in release) *)
+| WSatSub (a b : wexpr).           (* a.saturating_sub(b) *)
+Inductive wcond := WGt (a b : wexpr) | WOr (a b : wcond).
+Inductive push_field := PFPathFilePath | PFMtimeNow | PFLenFileLen.
+Inductive wstmt :=
+| WSRender                                        (* event.write_jsonl(&mut buffer).unwrap() *)
+| WSNow                                           (* let now = SystemTime::now() *)
+| WSRotateIf (c : wcond) (fields : list push_field) (* if c { file_set.push(PrefixFile{fields}); file = LogFile::create(..).unwrap() } *)
+| WSDeleteOlderIfKeepAge                          (* if let Some(d) = self.max_keep_age { file_set.delete_older_than(now, d).unwrap() } *)
+| WSDeleteWhileOver (e : wexpr)                   (* file_set.delete_oldest_while_over_max_len(e).unwrap() *)
+| WSWriteBuffer                                   (* file.write_all(&buffer).unwrap()   (LogFile::write_all: len += buffer.len()) *)
+| WSClearBuffer.                                  (* buffer.clear() *)
